@@ -172,7 +172,12 @@ class Explorer(object):
                          move='%s->%s via %s' % (o['state'], w['state'],
                                                  chain))
             elif o['state'] in TERMINAL_WF and o['output'] != w['output']:
-                viol('finished-workflow-output-changed', 'wf-output-changed')
+                moved = [c for c in self.w.cas_log[self.cas_pos:]
+                         if c[0] == 'wf' and c[1] == wid and c[4]
+                         and c[2] != c[3]]
+                if not (moved and operator == 'rerun_workflow'):
+                    viol('finished-workflow-output-changed',
+                         'wf-output-changed')
         for tid, t in new.tasks.items():
             o = old.tasks.get(tid)
             if o is None:
@@ -189,7 +194,9 @@ class Explorer(object):
                 continue
             if t['join'] and t['state'] == 'WAITING' and \
                     o['state'] in COMPLETED + ('RUNNING',) and \
-                    operator != 'rerun_workflow':
+                    operator != 'rerun_workflow' and \
+                    not (self.rerun_allowed and
+                         o['state'] in ('ERROR', 'CANCELLED')):
                 # Task.defer() resets an already started / finished join
                 # when one more inbound branch routes to it
                 self.taint = 'join-reset'
